@@ -209,6 +209,9 @@ def run(chk, P):
     chk.floor('R08.4', 40)
     import frames
     frames.c08(chk, P)
+    # R08.7: per-link values (block sizes, info pointers, rates) read before the link can change are not used after it
+    from rules import c07
+    c07.r07_6(chk, P, E, rule='R08.7', only={'ov_raw_seek', 'ov_pcm_seek_page', 'ov_pcm_seek', 'ov_time_seek', 'ov_time_seek_page'})
     chk.trusted += ['clang 14 front end', 'K3 external effect table', 'interval abstraction of return values (a return whose '
                     'value interval contains negatives is treated as a possible failure)']
     return ('Path rules over the CFG with the state partitioned by what has happened on the path (handle touched, position '
